@@ -32,6 +32,7 @@ def one(name, checks):
         return name, suite, res
     finally:
         subprocess.run(["git", "-C", "/repo", "worktree", "remove", "--force", wt], capture_output=True)
+        subprocess.run(["rm", "-rf", "/tmp/verif-out-" + os.path.basename(wt)])
 
 
 def main():
